@@ -33,6 +33,8 @@ PROP = "C15"
 
 # =========================================================================== harness-defined schemas
 # family N: a diamond of sub-properties (Rel <- RelA, RelB <- RelAB), a transitive inverse pair (Anc / Desc) with a
+# sub-property below it (Parent), an inverse pair between a Node field and a Role field (LedBy / Leads: inferred relations whose
+# source is a role),
 # sub-property below it (Parent, single-valued), and a role (Boss of a Node) whose fields are sub-properties of
 # fields of the role taker.
 class HangGuard(Exception):
@@ -52,6 +54,7 @@ class Node(Symbol):
     anc: TList[Node] = field(default_factory=list)
     desc: TSet[Node] = field(default_factory=set)
     parent: Node = None
+    led_by: TSet[Boss] = field(default_factory=set)
 
     def __hash__(self):
         if HASH_GUARD["limit"] is not None:
@@ -109,7 +112,17 @@ class Parent(Anc): ...
 
 
 @dataclass
-class Leads(RelAB): ...
+class LedBy(PropertyDescriptor, HasInverseProperty):
+    @classmethod
+    def get_inverse(cls):
+        return Leads
+
+
+@dataclass
+class Leads(RelAB, HasInverseProperty):
+    @classmethod
+    def get_inverse(cls):
+        return LedBy
 
 
 @dataclass
@@ -123,6 +136,7 @@ Node.ab = RelAB(Node, "ab")
 Node.anc = Anc(Node, "anc")
 Node.desc = Desc(Node, "desc")
 Node.parent = Parent(Node, "parent")
+Node.led_by = LedBy(Node, "led_by")
 Boss.leads = Leads(Boss, "leads")
 Boss.heads = Heads(Boss, "heads")
 
@@ -636,7 +650,10 @@ def run(tier: str, seed: int, replay=None) -> int:
     corpus = corpus_cases()
     if replay:
         descrs = [replay["case"]]
-        corpus = []
+        strip = lambda c: {k: v for k, v in c.items() if k not in ("comment", "group")}
+        corpus = [(n, c) for n, c in corpus if strip(c) == strip(replay["case"])][:1]   # a replayed witness keeps its finding
+        if not corpus:
+            corpus = []
     else:
         descrs = [c for _, c in corpus] + gen_cases(tier, seed)
     impls = run_workers(descrs)
